@@ -19,6 +19,11 @@ pub fn exec(func: &str, a: &mut Args) -> String {
             let e = mt.symmetric_eigen();
             let fresh = (0..3).all(|i| same(e.eigenvalues[i], vals[i])) && (0..3).all(|i| (0..3).all(|j| same(e.eigenvectors[(i, j)], vecs[(i, j)])));
             if !fresh { "stale-eigen".into() } else { fmp3(&MP3::with_inertia_matrix(c, m, mt)) } }
+        // the nalgebra primitives behind the principal frame, on ARBITRARY rotation matrices (all four branches, exact ties)
+        "quat_from_rotmat" => { let m = m3(a);
+            let mut q = d3::na::UnitQuaternion::from_rotation_matrix(&d3::na::Rotation3::from_matrix_unchecked(m));
+            let n = q.renormalize();
+            format!("{} {}", fquat(&q), ff(n)) }
         "mp3_reconstruct_inv" => { let p = mp3(a); fm3(&p.reconstruct_inverse_inertia_matrix()) }
         "mp3_world_inv_sqrt" => { let p = mp3(a); let q = quat(a); let s = p.world_inv_inertia_sqrt(&q);
             format!("{} {} {} {} {} {}", ff(s.m11), ff(s.m12), ff(s.m13), ff(s.m22), ff(s.m23), ff(s.m33)) }
@@ -155,6 +160,13 @@ pub fn gen(r: &mut Rng, thorough: bool, v: &mut Vec<(String, String)>) {
         let lat = it % 2 == 0;
         let d = density(r, lat);
         v.push(("mp3_wim".into(), wim_case(r, lat, (it as u64 / 2) % 8)));
+        { // rotation matrices: lattice quaternions (half / quarter / third turns: trace 0 or -1, tied diagonal entries),
+          // random ones, and random ones composed with a half-turn (trace <= 0)
+          let q = d3::gen_quat(r, lat);
+          let mut u = d3::na::UnitQuaternion::new_unchecked(d3::na::Quaternion::new(q[3], q[0], q[1], q[2]));
+          if it % 4 >= 2 { let k = r.below(3) as usize; let mut ax = V3::zeros(); ax[k] = 1.0;
+              u = u * d3::na::UnitQuaternion::new_unchecked(d3::na::Quaternion::new(0.0, ax.x, ax.y, ax.z)); }
+          v.push(("quat_from_rotmat".into(), hm3(&u.to_rotation_matrix().into_inner()))); }
         let x3 = gen_mp3(r, lat); let y3 = gen_mp3(r, lat);
         v.push(("mp3_reconstruct_inv".into(), hmp3(&x3)));
         let q = d3::gen_quat(r, lat);
